@@ -16,7 +16,10 @@ use scylla_cql::frame::server_event_type::{EventType, EventTypeV2};
 use scylla_cql::frame::types::{Consistency, SerialConsistency};
 use scylla_cql::frame::{Compression, SerializedRequest};
 use scylla_cql_core::frame::response::result::{ColumnType, NativeType};
-use scylla_cql_core::serialize::row::SerializedValues;
+use scylla_cql::serialize::raw_batch::RawBatchValuesAdapter;
+use scylla_cql_core::serialize::row::{RowSerializationContext, SerializeRow, SerializedValues};
+use scylla_cql_core::serialize::writers::RowWriter;
+use scylla_cql_core::serialize::SerializationError;
 use scylla_cql_core::value::{CqlValue, MaybeUnset};
 use serde::{Deserialize, Serialize};
 use std::borrow::Cow;
@@ -63,6 +66,14 @@ pub enum MReq {
         value_lists_delta: i8,
         /// repeat the statement list up to this many statements (boundary cases)
         pad_statements_to: Option<u32>,
+        /// value lists go through `RawBatchValuesAdapter` (the path `Session::batch` uses: rows are written straight
+        /// into the frame through a `RowWriter`) instead of pre-built `SerializedValues`
+        #[serde(default)]
+        typed_path: bool,
+        /// pad the first statement's value list with nulls up to this many values (typed path only:
+        /// `SerializedValues` cannot hold more than 65535)
+        #[serde(default)]
+        pad_first_values_to: Option<u32>,
         consistency: u8,
         serial: Option<bool>,
         timestamp: Option<i64>,
@@ -127,6 +138,32 @@ fn add_cell(sv: &mut SerializedValues, c: &MCell) -> Result<(), String> {
         MCell::Text(s) => sv.add_value(s, &t),
     };
     r.map_err(|e| e.to_string())
+}
+
+/// A row for the typed batch path: writes its cells straight through the `RowWriter`, whatever the context says.
+struct CellsRow(Vec<MCell>);
+
+impl SerializeRow for CellsRow {
+    fn serialize(&self, _ctx: &RowSerializationContext<'_>, writer: &mut RowWriter) -> Result<(), SerializationError> {
+        for c in &self.0 {
+            let w = writer.make_cell_writer();
+            match cell_wire(c) {
+                WValue::Null => {
+                    w.set_null();
+                }
+                WValue::Unset => {
+                    w.set_unset();
+                }
+                WValue::Bytes(b) => {
+                    w.set_value(&b).map_err(SerializationError::new)?;
+                }
+            }
+        }
+        Ok(())
+    }
+    fn is_empty(&self) -> bool {
+        self.0.is_empty()
+    }
 }
 
 /// Builds the driver's value list; Err(msg) when the driver refuses (too many values).
@@ -249,8 +286,15 @@ fn build(c: &Case) -> Result<Built, (String, String)> {
                 }
             }
         },
-        MReq::Batch { batch_type, statements, value_lists_delta, pad_statements_to, consistency, serial, timestamp } => {
+        MReq::Batch { batch_type, statements, value_lists_delta, pad_statements_to, typed_path, pad_first_values_to, consistency, serial, timestamp } => {
             let mut stmts: Vec<(MStmt, Vec<MCell>)> = statements.clone();
+            if *typed_path {
+                if let (Some(n), Some(first)) = (pad_first_values_to, stmts.first_mut()) {
+                    while (first.1.len() as u32) < *n {
+                        first.1.push(MCell::Null);
+                    }
+                }
+            }
             if let Some(n) = pad_statements_to {
                 // padding statements are tiny (the boundary is about the count, not the size)
                 let mut i = 0u32;
@@ -268,32 +312,63 @@ fn build(c: &Case) -> Result<Built, (String, String)> {
                 })
                 .collect();
             let mut value_lists: Vec<SerializedValues> = vec![];
+            let mut typed_rows: Vec<CellsRow> = vec![];
             let mut wire_lists: Vec<Vec<WValue>> = vec![];
             for (_, cells) in &stmts {
-                let (sv, w) = build_values(cells, None).map_err(|e| bad("harness", e))?;
-                value_lists.push(sv);
-                wire_lists.push(w);
+                if *typed_path {
+                    typed_rows.push(CellsRow(cells.clone()));
+                    wire_lists.push(cells.iter().map(cell_wire).collect());
+                } else {
+                    let (sv, w) = build_values(cells, None).map_err(|e| bad("harness", e))?;
+                    value_lists.push(sv);
+                    wire_lists.push(w);
+                }
             }
             match value_lists_delta.signum() {
-                1 => value_lists.push(SerializedValues::new()),
+                1 => {
+                    value_lists.push(SerializedValues::new());
+                    typed_rows.push(CellsRow(vec![]));
+                }
                 -1 => {
                     value_lists.pop();
+                    typed_rows.pop();
                 }
                 _ => {}
             }
-            let mismatch = value_lists.len() != stmts.len();
-            let oversize = stmts.len() > 65535 || stmts.iter().any(|(s, _)| matches!(s, MStmt::Prepared(id) if id.len() > 65535));
-            let b = Batch {
-                statements: Cow::Borrowed(bstmts.as_slice()),
-                batch_type: match batch_type % 3 {
-                    0 => BatchType::Logged,
-                    1 => BatchType::Unlogged,
-                    _ => BatchType::Counter,
-                },
-                consistency: CL_TABLE[*consistency as usize % 11].0,
-                serial_consistency: serial.map(|local| if local { SerialConsistency::LocalSerial } else { SerialConsistency::Serial }),
-                timestamp: *timestamp,
-                values: value_lists,
+            let n_lists = if *typed_path { typed_rows.len() } else { value_lists.len() };
+            let mismatch = n_lists != stmts.len();
+            let oversize = stmts.len() > 65535
+                || stmts.iter().any(|(s, _)| matches!(s, MStmt::Prepared(id) if id.len() > 65535))
+                || stmts.iter().any(|(_, cells)| cells.len() > 65535);
+            let batch_type_d = match batch_type % 3 {
+                0 => BatchType::Logged,
+                1 => BatchType::Unlogged,
+                _ => BatchType::Counter,
+            };
+            let consistency_d = CL_TABLE[*consistency as usize % 11].0;
+            let serial_d = serial.map(|local| if local { SerialConsistency::LocalSerial } else { SerialConsistency::Serial });
+            let made = if *typed_path {
+                // the contexts are not consulted by `CellsRow`; one (empty) context per value list
+                let contexts = (0..typed_rows.len()).map(|_| RowSerializationContext::empty());
+                let b = Batch {
+                    statements: Cow::Borrowed(bstmts.as_slice()),
+                    batch_type: batch_type_d,
+                    consistency: consistency_d,
+                    serial_consistency: serial_d,
+                    timestamp: *timestamp,
+                    values: RawBatchValuesAdapter::new(&typed_rows, contexts),
+                };
+                SerializedRequest::make(&b, compression, c.tracing)
+            } else {
+                let b = Batch {
+                    statements: Cow::Borrowed(bstmts.as_slice()),
+                    batch_type: batch_type_d,
+                    consistency: consistency_d,
+                    serial_consistency: serial_d,
+                    timestamp: *timestamp,
+                    values: value_lists,
+                };
+                SerializedRequest::make(&b, compression, c.tracing)
             };
             let mut flags = 0u8;
             if serial.is_some() {
@@ -303,7 +378,7 @@ fn build(c: &Case) -> Result<Built, (String, String)> {
                 flags |= QF_TIMESTAMP;
             }
             Built {
-                data: finish(SerializedRequest::make(&b, compression, c.tracing)),
+                data: finish(made),
                 expected: Some(ReqBody::Batch {
                     batch_type: batch_type % 3,
                     statements: stmts
@@ -457,7 +532,9 @@ pub fn oracle(c: &Case) -> Verdict {
                 .count(),
             params.pad_values_to.is_some(),
         ),
-        MReq::Batch { serial, timestamp, pad_statements_to, .. } => ([serial.is_some(), timestamp.is_some()].iter().filter(|x| **x).count() + 1, pad_statements_to.is_some()),
+        MReq::Batch { serial, timestamp, pad_statements_to, typed_path, pad_first_values_to, .. } => {
+            ([serial.is_some(), timestamp.is_some()].iter().filter(|x| **x).count() + 1, pad_statements_to.is_some() || (*typed_path && pad_first_values_to.is_some()))
+        }
         _ => (0, false),
     };
     info.nontrivial = n_opt >= 3 || boundary || c.compression != Compr::None;
@@ -525,15 +602,18 @@ fn req() -> BoxedStrategy<MReq> {
             proptest::collection::vec((prop_oneof![stmt_text().prop_map(MStmt::Query), id_bytes().prop_map(MStmt::Prepared)], proptest::collection::vec(cell(), 0..4)), 0..5),
             prop_oneof![8 => Just(0i8), 1 => Just(1i8), 1 => Just(-1i8)],
             prop_oneof![400 => Just(None), 8 => Just(Some(255u32)), 1 => Just(Some(65535)), 1 => Just(Some(65536))],
+            (any::<bool>(), prop_oneof![200 => Just(None), 4 => Just(Some(256u32)), 1 => Just(Some(65535)), 1 => Just(Some(65536)), 1 => Just(Some(65537))]),
             0u8..11,
             proptest::option::of(any::<bool>()),
             proptest::option::of(any::<i64>()),
         )
-            .prop_map(|(batch_type, statements, value_lists_delta, pad_statements_to, consistency, serial, timestamp)| MReq::Batch {
+            .prop_map(|(batch_type, statements, value_lists_delta, pad_statements_to, (typed_path, pad_first_values_to), consistency, serial, timestamp)| MReq::Batch {
                 batch_type,
                 statements,
                 value_lists_delta,
                 pad_statements_to,
+                typed_path,
+                pad_first_values_to,
                 consistency,
                 serial,
                 timestamp,
@@ -563,7 +643,7 @@ pub fn case() -> BoxedStrategy<Case> {
 }
 
 pub fn run(ctx: &Ctx, rep: &mut Report) {
-    rep.rule = "Cases: a request model (QUERY/EXECUTE with every subset of the optional fields, all 11 consistencies, both serial consistencies, page sizes incl. 0/negative/i32::MAX, paging state absent/empty/up to 1000 bytes, timestamps at the i64 boundaries, skip-metadata, value lists with nulls/unset/empties and padded to 255/256/65535/65536 values; EXECUTE ids of 0..65536+ bytes with/without a result metadata id; BATCH of 0..n statements mixing prepared/unprepared, three types, value-list/statement count mismatch in both directions, padded to 255/65535/65536 statements; PREPARE; STARTUP option maps incl. 65535/65536-byte keys; REGISTER with both event-type enums; OPTIONS; AUTH_RESPONSE) x {none, LZ4, Snappy} x tracing x stream id. The driver's frame is parsed by the independent request parser and compared field by field; all 64 QUERY option subsets are additionally enumerated exhaustively. Non-trivial = >= 3 optional fields present, a 16-bit boundary case, or compression on.".into();
+    rep.rule = "Cases: a request model (QUERY/EXECUTE with every subset of the optional fields, all 11 consistencies, both serial consistencies, page sizes incl. 0/negative/i32::MAX, paging state absent/empty/up to 1000 bytes, timestamps at the i64 boundaries, skip-metadata, value lists with nulls/unset/empties and padded to 255/256/65535/65536 values; EXECUTE ids of 0..65536+ bytes with/without a result metadata id; BATCH of 0..n statements mixing prepared/unprepared, three types, value-list/statement count mismatch in both directions, padded to 255/65535/65536 statements, value lists either pre-built or written through the typed RawBatchValuesAdapter path with the first list padded to 256/65535/65536/65537 values; PREPARE; STARTUP option maps incl. 65535/65536-byte keys; REGISTER with both event-type enums; OPTIONS; AUTH_RESPONSE) x {none, LZ4, Snappy} x tracing x stream id. The driver's frame is parsed by the independent request parser and compared field by field; all 64 QUERY option subsets are additionally enumerated exhaustively. Non-trivial = >= 3 optional fields present, a 16-bit boundary case, or compression on.".into();
     rep.trusted_base = vec!["vkit::wire::request parser written from native_protocol_v4.spec; lz4_flex / snap to inflate bodies".into()];
     rep.assumptions = vec!["statements of 2 GiB and more are not generated".into()];
     if let Some((check, case_v)) = &ctx.replay {
